@@ -501,7 +501,7 @@ static std::string run_once(const std::string& line, int timeout_ms) {
     pid_t pid = fork();
     if (pid == 0) {
         close(fds[0]);
-        struct rlimit rl = {10, 12};
+        struct rlimit rl = {4, 6};       // a case needs ~20 ms of CPU; a spinning one is cut here (load-independent)
         setrlimit(RLIMIT_CPU, &rl);
         child_main(line, fds[1]); _exit(0);
     }
